@@ -212,7 +212,7 @@ func main() {
 				s.natsDs = []int{-9, -2, -1, 0, 1, 2, 3, 4, 5, 9, 70000}
 				s.natsReq, s.natsRsp, s.natsPub = reqShapes, respShapes, pubShapes
 			} else {
-				s.natsDs = []int{-1, 0, 1, 3}
+				s.natsDs = []int{-1, 0, 1, 3, 5000}
 				s.natsReq = []string{"first", "last", "tag"}
 				s.natsRsp = []string{"first", "last", "getbig"}
 				s.natsPub = []string{"mid", "last"}
